@@ -84,7 +84,8 @@ static int s_load_node_decl(
             AWS_ZERO_STRUCT(att_val_pair_lst);
             aws_array_list_init_static(&att_val_pair_lst, att_val_pair, 2, sizeof(struct aws_byte_cursor));
 
-            if (!aws_byte_cursor_split_on_char(&attribute_pair, '=', &att_val_pair_lst)) {
+            /* split at the first '=' only: the value may contain '=' itself */
+            if (!aws_byte_cursor_split_on_char_n(&attribute_pair, '=', 1, &att_val_pair_lst)) {
                 struct aws_xml_attribute attribute = {
                     .name = att_val_pair[0],
                     .value = aws_byte_cursor_trim_pred(&att_val_pair[1], s_double_quote_fn),
